@@ -14,15 +14,17 @@ Definition is_container (k : kind) : bool := match k with KScalar => false | _ =
 Definition succs (h : heap) (v : nat) : list nat :=
   let (k, items) := node h v in if is_container k then items else [].
 
+(* `if`, not `&&`: the kernel VM evaluates arguments eagerly, and a walk must stop where it re-enters a node (otherwise the
+   check of a cyclic heap with several aliases goes round the cycle |h| times in every branch) *)
 Fixpoint walks_ok (n : nat) (h : heap) (pref : list nat) (v : nat) : bool :=
-  negb (existsb (Nat.eqb v) pref) &&
-  match n with
-  | 0 => true
-  | S n' => forallb (walks_ok n' h (v :: pref)) (succs h v)
-  end.
+  if existsb (Nat.eqb v) pref then false
+  else match n with
+       | 0 => true
+       | S n' => forallb (walks_ok n' h (v :: pref)) (succs h v)
+       end.
 
 (* the property of one call of yaml_load on a loadable text: a value that is ACCEPTED is walkable (refusing is the
    channel: YAMLError -> ArgumentError; accepting an unwalkable value is the RecursionError leak).  Refusing a walkable
    value is a failure reported through the channel: not a violation of this property. *)
 Definition cycle_check_ok (h : heap) (root : nat) (rejected : bool) : bool :=
-  rejected || walks_ok (length h) h [] root.
+  if rejected then true else walks_ok (length h) h [] root.
